@@ -23,6 +23,9 @@ func init() {
 }
 
 func runC12(c *eng.Ctx, tier string) {
+	if tier == "thorough" {
+		defer thoroughC12(c)
+	}
 	p := c.P
 	if p.Named(setecPkg, "Store") == nil || p.Named(setecPkg, "cachedSecret") == nil {
 		c.Undecided("anchor", nil, 0, "setec.Store / setec.cachedSecret", "type anchors do not resolve")
